@@ -869,8 +869,9 @@ def default_term(g):
     return None
 
 
-def check_conversions(rep, g):
-    """R-DELEG: TryFrom / From / FromStr(String) / Default agree with the canonical constructor"""
+def check_conversions(rep, g, fallible_only=False):
+    """R-DELEG: TryFrom / From / FromStr(String) / Default agree with the canonical constructor.
+    fallible_only: just the conversions that can report the constructor's error (TryFrom, FromStr)"""
     d = g.d
     ex = g.ex
     hv = g.has_validation()
@@ -896,9 +897,10 @@ def check_conversions(rep, g):
             okerr = et is not None and ctor is not None and g.F.ty(ctor['output'])['args'][1] == et
             rep.ob('R-DELEG', okerr, g, f'TryFrom<{src}>::Error is the constructor error type', {})
     # --- From<Inner> for T
-    fr = [i for i in g.trait_impls('convert::From')]
+    fr = [] if fallible_only else [i for i in g.trait_impls('convert::From')]
     want_n = (2 if d['family'] == 'string' else 1) if 'From' in derives else 0
-    rep.ob('R-IMPL', len(fr) == want_n, g, f'From<raw> impls for T present: {len(fr)} (expected {want_n})', {})
+    if not fallible_only:
+        rep.ob('R-IMPL', len(fr) == want_n, g, f'From<raw> impls for T present: {len(fr)} (expected {want_n})', {})
     for imp in fr:
         fn = g.impl_fn(imp, 'from')
         if fn is None:
@@ -922,6 +924,8 @@ def check_conversions(rep, g):
             want = conv_expected(g, P1, wrap_ok_when_infallible=True)
             cmp_tables(rep, 'R-DELEG', g, 'FromStr::from_str(s) has exactly the outcomes of the constructor on s', got, want)
     # --- Default
+    if fallible_only:
+        return
     df = g.trait_impls('default::Default')
     rep.ob('R-IMPL', len(df) == (1 if 'Default' in derives else 0), g, 'Default impl present iff derived', {})
     for imp in df:
@@ -1646,8 +1650,9 @@ def check_hygiene(rep, g):
             if it['module'] == g.modpath and it['span'].startswith('!'):
                 nm = it['name']
                 owner = [fn for fn in g.fns if fn['path'] == it['owner']]
-                if owner and not any(has_user_tokens(F, fn) for fn in owner):
-                    continue   # nothing of the user's is spliced into that body
+                sibling_init = any(o.get('init_user') for o in F.items if o['scope'] == 'fn' and o['owner'] == it['owner'])
+                if owner and not sibling_init and not any(has_user_tokens(F, fn) for fn in owner):
+                    continue   # nothing of the user's is spliced into that body (or into an initialiser of its local items)
                 rep.ob('R-HYGIENE', nm.startswith('__') or nm == '_', g, f'item `{nm}` ({it["kind"]}) local to generated `{it["owner"]}` is `__`-prefixed; '
                        'any other name would capture the same name in an expression spliced into that body', {'item': nm, 'kind': it['kind']})
             continue
